@@ -14,10 +14,10 @@ ASSUMPTIONS = ['the 6-DOF closed form is the reference for theta1..theta5 (C02)'
 
 
 def theta_table(b):
-    ls = [l for l, n in b.names.items() if n == 'theta']
-    if len(ls) != 1:
+    th, _ = util.table_locals(b)
+    if th is None:
         return None
-    t = strip(b.term_local(ls[0]))
+    t = strip(b.term_local(th))
     if isinstance(t, tuple) and t[0] == 'agg' and t[1] == 'array':
         rows = []
         for r in t[2:]:
@@ -43,19 +43,21 @@ def run(ctx):
     ctx.fn(five)
     t6, t5 = theta_table(six), theta_table(five)
     ctx.require(t6 is not None and t5 is not None and len(t6) == 8 and len(t5) == 8, 'candidate tables `theta` (8 rows) of both solvers')
+    from . import C02
+    ring0 = algebra.Ring()
     n = 0
     for r in range(8):
         for c in range(5):
             n += 1
-            ok = t6[r][c] == t5[r][c]
+            ok = C02.same_mod_2pi(ring0, t6[r][c], t5[r][c])
             ctx.check(ok, 'R06.1', 'theta[%d][%d]' % (r, c), five.where(0), five.path,
                       'the 5-DOF solver computes theta%d of branch %d differently from the 6-DOF solver' % (c + 1, r),
                       found=show(t5[r][c], maxdepth=5), expected=show(t6[r][c], maxdepth=5), detail='equal value numbers')
     ctx.floor('R06.1 cells', n, 40)
 
     # ---- R06.2
-    sols = [l for l, nme in five.names.items() if nme == 'sols']
-    ctx.require(len(sols) == 1, 'local `sols` in the 5-DOF solver')
+    sols = [util.table_locals(five)[1]]
+    ctx.require(sols[0] is not None, 'candidate array (element-wise rewritten [[f64;6];8]) in the 5-DOF solver')
     writes5 = []
     other_ranges = []
     for i, j, st in five.stmts():
@@ -142,10 +144,11 @@ def run(ctx):
         b = y[0]
         ctx.fn(b)
         _suppress(ctx, b, 'yaml', lambda s: 'Eq' in s or '==' in s)
-    u = [b for b in prog.bodies.values() if b.path == 'urdf::populate_opw_parameters']
-    if ctx.check(len(u) == 1, 'R06.5', 'urdf/exists', '', 'urdf::populate_opw_parameters', 'URDF parameter mapping function not found'):
+    fu = util.find_one(ctx, suffix='urdf::from_urdf')
+    u = [util.find_role(ctx, 'URDF parameter mapping helper: fn(HashMap<String, JointData>, ..) -> Result<URDFParameters, String> called by from_urdf',
+                        lambda b, sg: 'URDFParameters' in sg[0] and 'Result' in sg[0] and 'HashMap' in sg[1], module='urdf::', called_from=[fu])]
+    if True:
         b = u[0]
-        ctx.fn(b)
         ok = False
         for i, j, st in b.stmts():
             lhs = st['lhs']
